@@ -247,10 +247,12 @@ let cmd_world () =
   let ents = read_named () in
   let rec nat_of_int i = if i = 0 then O else S (nat_of_int (i - 1)) in
   let read_subs () =
+    (* registrations in order: "<entityhex> <memberhex>" per line; the table is computed by the model's [subscribe] *)
     let n = (try int_of_string (next_line ()) with End_of_file -> 0) in
-    List.init n (fun _ -> ()) |> List.map (fun () ->
+    let regs = List.init n (fun _ -> ()) |> List.map (fun () ->
       match String.split_on_char ' ' (next_line ()) with
-      | [k; c] -> (coq_string_of (unhex k), nat_of_int (int_of_string c)) | _ -> failwith "sub") in
+      | [e; k] -> (coq_string_of (unhex e), coq_string_of (unhex k)) | _ -> failwith "sub") in
+    match subscribe_all [] regs with Ok t -> t | Err _ -> failwith "subscribe: KeyError" in
   let msubs = read_subs () in let psubs = read_subs () in let nsubs = read_subs () in
   let g, table = match dialect with
     | "wows" -> Wows, table_wows | "wows126" -> Wows, table_wows126
@@ -298,8 +300,18 @@ let cmd_encode () =
         print_endline (if h = "" then "-" else h)
     | _ -> failwith ("encode: bad line " ^ l))
 
+(* frames : one hex stream per line -> "<tail> <type>:<timehex>:<payloadhex|-> ..." *)
+let cmd_frames () =
+  iter_lines (fun l ->
+    let bs = bytes_of_string (unhex (if l = "-" then "" else l)) in
+    let (ps, t) = frames bs in
+    let tl = (match t with Clean -> "clean" | HeaderCut -> "headercut" | OutOfFuel -> "FUEL") in
+    print_endline (String.concat " " (tl :: List.map (fun p ->
+      Printf.sprintf "%d:%s:%s" (int_of_n p.pk_type) (hex_of_bytes p.pk_time) (let h = hex_of_bytes p.pk_payload in if h = "" then "-" else h)) ps)))
+
 let () =
   match Sys.argv.(1) with
+  | "frames" -> cmd_frames ()
   | "encode" -> cmd_encode ()
   | "bits" -> cmd_bits ()
   | "bitread" -> cmd_bitread ()
